@@ -24,6 +24,9 @@ RULE = ('inputs: grammar-derived programs (as in C10) and a boundary generator: 
 ASSUMPTIONS = ['clause heads are computed by ypv/recog.py', 'names of the engine API are reserved (never callable, C08): '
                'their definitions are checked for loading but not called',
                'numerals above CPython\'s 4300-digit int/str conversion limit are outside the explored space']
+RULE_ADDED = (' Added after the rounds of independently written changes (DESIGN.md 12.2): ' +
+              'variable names at and next to every reserved name (underscores added or removed at either end); names containing Python keywords in failing bodies; partial lists and terms nested up to the 200-bracket limit; numerals of thousands of digits.')
+RULE = RULE + RULE_ADDED
 
 BAD_AT_CALL = ('NameError', 'TypeError', 'AttributeError', 'UnboundLocalError', 'SyntaxError', 'IndentationError', 'KeyError', 'IndexError', 'ValueError')
 
